@@ -1555,6 +1555,13 @@ impl AggregationState {
 
         let n = group_accessors.len();
 
+        // The id scratch array below holds at most 8 group-by columns; wider
+        // keys must take the exact HashMap path instead of indexing past it.
+        if n > 8 {
+            self.overflowed = true;
+            return None;
+        }
+
         // Phase 1: Register all keys and collect ids.
         // We must do this BEFORE computing flat_idx because discovering a new
         // key in column j changes strides for columns 0..j-1.
